@@ -64,6 +64,9 @@ pub fn sheet_strategy(name: String) -> impl Strategy<Value = OSheet> {
     );
     (origin, 1u32..30, 1u32..30).prop_flat_map(move |((r0, c0), h, w)| {
         let name = name.clone();
+        // the two "far" origins put the window flush against the last row / column of the sheet
+        let r0 = if r0 == 1_048_540 { 1_048_576 - h } else { r0 };
+        let c0 = if c0 == 16_350 { 16_384 - w } else { c0 };
         // a few distinct cells, placed many times: neighbours are often identical
         (
             proptest::collection::vec(cell_strategy(), 1..4),
